@@ -7,6 +7,9 @@
    the spec mutants M_ResetBegin / M_ResetBuf / M_SkipParent must each violate an invariant. TLC exports every case
    (split on/off, <= 3 successive batches of shrinking size for one worker, kinds, size classes, 413 pattern) with
    the declaratively expected ids.
+   Fault family: one batch fails every attempt (5xx), the RetriableBatcher gives up, the recycled Batch object and the
+   surviving worker data serve the next batches; spec mutant M_ReencodeAfterGiveUp (encode-once cache keyed by the
+   Batch object, not dropped on give-up) must violate BodyIs.
 2. The cases are replayed into the REAL output plugins (elasticsearch, kafka, file, splunk, http, loki, gelf), each
    event carrying adversarial values in the routing/label fields; every captured body is parsed back in the sink's
    framing (abstraction function) and compared with the expectation: BodyIs, FramingOK, SplitCovers.
@@ -30,7 +33,16 @@ QUICK_N = {"elasticsearch": 8000, "http": 2500}
 QUICK_DEFAULT_N = 2000
 
 
+FAULT_SINKS = {"elasticsearch", "http", "splunk", "loki", "kafka"}   # RetriableBatcher + a sink that can answer 5xx
+
+
+def is_fault(c):
+    return any(c.get("fail") or [])
+
+
 def takes(sink, c):
+    if is_fault(c) and sink not in FAULT_SINKS:
+        return False
     if sink == "elasticsearch":
         return True
     nopat = all(len(p) == 0 for p in c["pats"])
@@ -45,12 +57,13 @@ def rejects(pat, ids):
 
 
 def shape_key(c):
-    return json.dumps({"split": c["split"], "pats": c["pats"],
+    return json.dumps({"split": c["split"], "pats": c["pats"], "fail": c.get("fail"), "dq": c.get("dq", False),
                        "b": [[[e["id"], e["kind"], e["size"]] for e in b] for b in c["batches"]]}, sort_keys=True)
 
 
 def compact(c):
-    return {"split": c["split"], "batches": c["batches"], "pats": c["pats"], "variant": c.get("variant", "")}
+    return {"split": c["split"], "batches": c["batches"], "pats": c["pats"], "variant": c.get("variant", ""),
+            "fail": c.get("fail") or [False] * len(c["batches"]), "dq": c.get("dq", False)}
 
 
 def judge(sink, c, r):
@@ -71,7 +84,9 @@ def judge(sink, c, r):
         if sink == "http" and variant == "raw":
             # encoding.type=raw: a line per event that has the encoded field; class 1 events have nothing to deliver
             exp = [i for i in exp if vals[i] != 1]
-        base = {"sink": sink, "batch": bi, "case": compact(c)}
+        failing = bool((c.get("fail") or [])[bi:bi + 1] == [True])
+        after_giveup = any((c.get("fail") or [])[:bi])
+        base = {"sink": sink, "batch": bi, "case": compact(c), "after_given_up_batch": after_giveup}
         if not br["acked"]:
             recs.append(dict(base, kind="hang", what="batch not committed within 60 s"))
         accepted = []
@@ -81,6 +96,9 @@ def judge(sink, c, r):
                                  index_value_needs_json_escaping=vals.get(fr["id"]) in NEEDS_ESC))
             for i in q.get("doc_diff") or []:
                 recs.append(dict(base, kind="doc_differs", id=i, val_class=vals.get(i)))
+            if failing and q.get("st") == 500 and variant != "raw" and q["ids"] != payload:
+                # every attempt of a batch that is going to be given up must still carry that batch
+                recs.append(dict(base, kind="retry_body_differs", want=payload, got=q["ids"]))
             if q["ok"]:
                 pos = [payload.index(i) if i in payload else -1 for i in q["ids"]]
                 if -1 not in pos and any(pos[j] >= pos[j + 1] for j in range(len(pos) - 1)):
@@ -110,7 +128,10 @@ def judge(sink, c, r):
 
 
 def nontrivial_key(sink, c):
-    """distinct non-trivial case shapes: buffer reuse across batches, a parent to omit, or a real split"""
+    """distinct non-trivial case shapes: buffer reuse across batches, a parent to omit, a real split, a given-up batch"""
+    if is_fault(c):
+        return (sink, c["split"], tuple(tuple((e["kind"], e["size"]) for e in b) for b in c["batches"]),
+                json.dumps([c["fail"], c.get("dq", False)]))
     reuse = len(c["batches"]) > 1
     parent = any(e["kind"] == "parent" for b in c["batches"] for e in b)
     split = any(len(p) > 0 for p in c["pats"])
@@ -170,7 +191,7 @@ def run(ctx):
             raise vlib.Infra("strict SplitCovers with D14 off should hold: %s\n%s" % (r.violated, r.out[-2000:]))
         # spec mutants: each mechanism switch turned off must break an invariant
         mutants = {}
-        for sw in ("M_ResetBegin", "M_ResetBuf", "M_SkipParent"):
+        for sw in ("M_ResetBegin", "M_ResetBuf", "M_SkipParent", "M_ReencodeAfterGiveUp"):
             m = bg.tlc("OutputPayload", "OutputPayload_mut.cfg", deadlock=False, timeout=900, workers=4,
                        overrides={sw: "FALSE"}, name="mutant %s off" % sw)
             if m.ok or m.kind != "invariant":
@@ -199,7 +220,11 @@ def run(ctx):
         if quick:
             n = QUICK_N.get(sink, QUICK_DEFAULT_N)
             if len(sel) > n:
-                sel = rng.sample(sel, n)
+                # a fifth of the sample from the fault family (a batch given up after exhausted retries, more follow)
+                flt = [c for c in sel if is_fault(c) and not c["fail"][-1]]
+                rest = [c for c in sel if not (is_fault(c) and not c["fail"][-1])]
+                nf = min(len(flt), n // 5)
+                sel = rng.sample(flt, nf) + rng.sample(rest, min(len(rest), n - nf))
         out = []
         for n, c in enumerate(sel):
             c = json.loads(json.dumps(c))
@@ -211,6 +236,7 @@ def run(ctx):
                     e["val"] = rng.choice(ALL_VALS if esc_case else SAFE_VALS)
             out.append(c)
         return out
+
 
     per_sink = {}
     if replay_recs is not None:
@@ -229,6 +255,7 @@ def run(ctx):
                 c = json.loads(json.dumps(by_shape[shape_key(v["case"])]))
                 c["batches"] = v["case"]["batches"]               # with the recorded value classes
                 c["variant"] = v["case"].get("variant", "")
+                c["dq"] = v["case"].get("dq", False)
                 c["n"] = len(out)
                 out.append(c)
             per_sink[sink] = out
@@ -250,7 +277,8 @@ def run(ctx):
         with open(path, "w") as f:
             for c in sel:
                 f.write(json.dumps({"n": c["n"], "variant": c.get("variant", ""), "split": c["split"],
-                                    "batches": c["batches"], "pats": c["pats"]}) + "\n")
+                                    "batches": c["batches"], "pats": c["pats"],
+                                    "fail": c.get("fail") or [False] * len(c["batches"]), "dq": c.get("dq", False)}) + "\n")
         outp = os.path.join(ctx.scratch, "c19_%s_out.ndjson" % sink)
         rc, txt = ctx.run_bin(bins[sink], "^TestVerifC19$", env={"VERIF_CASES": path, "VERIF_OUT": outp, "LOG_LEVEL": "error"}, timeout=2400)
         if rc != 0:
@@ -277,8 +305,8 @@ def run(ctx):
             if k is not None:
                 ctx.nontrivial.add(k)
             if sink == "elasticsearch" and not rr and not r.get("panic"):
-                real = [[[q["ids"], q["ok"]] for q in b["reqs"]] for b in r["batches"]]
-                model = [[[q["ids"], q["ok"]] for q in b] for b in c["model"]]
+                real = [[[q["ids"], q["ok"], q.get("st")] for q in b["reqs"]] for b in r["batches"]]
+                model = [[[q["ids"], q["ok"], q["st"]] for q in b] for b in c["model"]]
                 if real != model:
                     drift += 1
                     if drift <= 3:
@@ -304,6 +332,7 @@ def run(ctx):
         "one batcher worker (workers_count=1); batches are sealed deterministically through batch_size_bytes",
         "valid JSON is judged structurally (encoding/json); invalid UTF-8 inside a string is accepted",
         "http encoding.type=raw (30% of the http cases): an event without the encoded field has nothing to deliver and its empty line is tolerated",
+        "fault family (elasticsearch, http, splunk, loki, kafka): one batch of the case is answered 5xx (kafka: produce error) on every attempt, retry=1, retention=1ms, fatal_on_failed_insert off, with and without a dead queue (a stand-in output); the given-up batch is a configured drop, the batches after it must be delivered exactly once with no byte of the given-up one",
         "the 413 clause is checked for elasticsearch only (as stated); only 413 answers are scripted, no other errors",
         "gzip off; byte-level escaping is checked only through 'parses back to the same JSON document'",
         "clickhouse / postgres / s3 / socket / stdout outputs are not covered",
